@@ -84,6 +84,18 @@ CHECKS["C12"] = dict(
     note=("Trusted: Coq kernel, Reals axioms, FloatAxioms.ltb_spec for the binary64 lemma; hand-written model tied to the code by "
           "query-sequence correspondence; smoothing ON, nonlinear heat conductivity and axisymmetric magnetics not modelled."),
     technique="Coq proof (search completeness by arithmetic on indices, geometry on reals, float lemma) + bit-exact query correspondence")
+CHECKS["C02"] = dict(
+    category="proof",
+    text=("Coq round-trip theorems for the marker codec (point/boundary property and conductor through Triangle's vertex and "
+          "segment markers) for all property/conductor indices within the proved 16/15-bit range, refuted beyond it, for the "
+          "constants regenerated from writepoly.cpp and the three LoadMesh on every run; Triangle's own markers decode to "
+          "nothing. Tie: the decode model vs the real LoadMesh of esolver/hsolver/fsolver on hand-made marker values; generated "
+          "problems of all file types: .poly markers vs the drawn entity's assignment, mesh markers vs LoadMesh data, and the "
+          "Coq mesh validator (region attribute constant across non-entity edges, label located, holes empty, edge/vertex "
+          "markers equal the drawn entity's). Partial: Triangle's marker propagation is validated per mesh, not proved."),
+    design_ref="DESIGN.md §5 C02",
+    note="Trusted: Coq kernel; regex translator tools/translate_markers.py; python oracle for entity ownership of PSLG segments; validator as in C01.",
+    technique="Coq proof of the codec on constants regenerated from source + LoadMesh differential runs + verified mesh validator")
 PENDING = {}
 def main():
     props = [json.loads(l) for l in open(os.path.join(V, "properties.jsonl"))]
